@@ -75,7 +75,9 @@ def s3(ctx, rep):
     p = cg.path(cg.entry, cg.exit, deleted=bn, skip_labels=("exc",))
     rep.put(bool(bn) and p is None, "S3", "must_follow", "HyperbandScheduler._cleanup_trial → terminator.on_task_remove", g, None, "")
     h = P.method("HyperbandBracketManager", "on_task_remove")
-    ok = any(isinstance(x, ast.Call) and fn_name(x) == "on_task_remove" and "rung_sys" in U(x.func.value) for x in walk_shallow(h.node)) and \
+    from ..engine import var_from_call
+    rsv = var_from_call(h, "_get_rung_system", 0)
+    ok = rsv is not None and any(isinstance(x, ast.Call) and fn_name(x) == "on_task_remove" and U(x.func.value) == rsv for x in walk_shallow(h.node)) and \
         any(isinstance(x, ast.Delete) and "_task_info" in U(x) for x in walk_shallow(h.node))
     rep.put(ok, "S3", "agreement", "HyperbandBracketManager.on_task_remove releases the rung-system record and _task_info", h, None, "")
     # synchronous schedulers: failed slot reported to the bracket, then removed from pending
